@@ -108,3 +108,11 @@ def replay_input(d):
     i = d['input']
     r = run_one(i['selfies'], i['compatible'], i['attribute'])
     return r[0] in ('ok', 'DecoderError'), repr(r)
+
+
+def replay_known(ctx, k):
+    s = eval(k['witness']['expr'])
+    r = run_one(s, False, False)
+    if k['id'].endswith('recursion-depth'):
+        return r[0] == 'escaped' and r[1] == 'RecursionError'
+    return r[0] == 'escaped' and r[1] == 'ValueError'
